@@ -60,12 +60,12 @@ CLAIMED = {
    design="DESIGN.md section 4, C19"),
  "C15": dict(
    technique="property-based testing of generated multi-threaded programs under fault injection (gc-stress: a world-stopping full collection forced every 40-1000 allocations on whichever thread allocates), with per-thread invariants (private graph checksum, accumulator), visibility of global assignments after a channel handshake, and the heap hooks; the OS owns the schedule",
-   text="Generated-input search: 100 (quick) programs with 1-8 native worker threads x 50-2000 iterations under forced world-stopping collections and global definitions / assignments by the main thread; checked: every worker's final accumulator and private-graph checksum, the global a worker reads after receiving the main thread's i-th value (>= i), stale-handle hook, crashes, completion. Weak: the schedule is not controlled, so a violation that needs a particular interleaving is found only by chance, and the 'being scanned' flag hook the property names is not implemented - only consequences are observed.",
+   text="Generated-input search: 60 (quick) programs with 1-8 native worker threads x 50-2000 iterations under forced world-stopping collections and global definitions / assignments by the main thread; checked: every worker's final accumulator and private-graph checksum, the global a worker reads after receiving the main thread's i-th value (>= i), stale-handle hook, crashes, completion. Weak: the schedule is not controlled, so a violation that needs a particular interleaving is found only by chance, and the 'being scanned' flag hook the property names is not implemented - only consequences are observed.",
    note="Trusted: hooks gc-stress / stale-handle (feature verif). Several genuine, schedule dependent defects are listed as known findings (a worker's live data swept by another thread's collection; deadlock of forced collections; slot dropped by another thread's compaction) and matched by signature, which also means that a new defect with one of these symptoms is not distinguished from them.",
    design="DESIGN.md section 4, C15"),
  "C16": dict(
    technique="property-based testing of generated multi-threaded programs (spawn, channels, blocking receives, joins in generated orders, global updates) with delivery and completion oracles; the OS owns the schedule",
-   text="Generated-input search: 250 (quick) programs with 1-8 native worker threads, a shared tick channel, one blocking channel per worker, 0-5 feed rounds, joins in spawn / reverse / looped / interleaved order, natural collections (3 in 4) or forced ones; checked: the program finishes (30 s, retried with 60 s; it needs well under a second), join results arrive exactly once with the worker's value, every sender's messages arrive exactly once and in order, workers' final state. JIT on/off.",
+   text="Generated-input search: 160 (quick) programs with 1-8 native worker threads, a shared tick channel, one blocking channel per worker, 0-5 feed rounds, joins in spawn / reverse / looped / interleaved order, natural collections (3 in 4) or forced ones; checked: the program finishes (30 s, retried with 60 s; it needs well under a second), join results arrive exactly once with the worker's value, every sender's messages arrive exactly once and in order, workers' final state. JIT on/off.",
    note="Trusted: the time limits as a deadlock detector (one retry). Weak for the same reason as C15: interleavings are sampled by the OS, not enumerated. Locks and higher-order blocking helpers beyond map / for-each are not generated. The worker-state and stale-handle symptoms of KF-C15-thread-roots-missed are tolerated here and reported by C15.",
    design="DESIGN.md section 4, C16"),
  "C02": dict(
